@@ -94,7 +94,7 @@ class ComplexStep(BaseGradientApproximator):
     ) -> list[ndarray]:
         n_perturbations = input_perturbations.shape[1]
         self._function_kwargs = kwargs
-        functions = [self._wrap_function] * n_perturbations
+        functions = [self._wrap_function for _ in range(n_perturbations)]
         parallel_execution = CallableParallelExecution(functions, **self._parallel_args)
 
         perturbed_inputs: list[ndarray[Any, dtype[bool_]]] = [
